@@ -1594,3 +1594,135 @@ def rule_overload_data_from_overload(ctx, rep: Report, rid="M9"):
                             f"{ci.mod.rel}:{c.lineno}")
     if n < 6:
         raise AnalysisError(f"{rep.prop}/{rid}: only {n} signature-dependent helper calls found in the per-overload loops (6 expected)")
+
+
+def rule_one_scope_for_class_names(ctx, rep: Report, rid="T9"):
+    """The flattened MATLAB-side name of a class - `<scope><Name>` in `collector_<..>`, `Collector_<..>`, `ptr_<..>` - is
+    written at a dozen places (preamble, routines, classdef property, constructor, delete).  All of them must take the
+    scope from the same place.  Two derivations exist in the code: the namespace the class is *wrapped in* (the
+    `namespace_name` string handed down by wrap_namespace, also stored in the routine table) and the namespace the
+    class's *declaration* hangs in (`<class>.parent`, used by _format_class_name).  They differ for a typedef'd
+    instantiation whose template lives in another namespace; a site of the second kind then spells another name than
+    the sites of the first kind and the MEX source / classdef refer to an undeclared collector or property."""
+    from .emit import Folder
+    ci, prog = mw(ctx)
+    helper = prog.find_method(ci, "_format_class_name")
+    reads_parent = helper is not None and any(isinstance(a, ast.Attribute) and a.attr == "parent" for a in ast.walk(helper[1]))
+    sites: List[Tuple[str, int, str, str]] = []
+    for c in prog.mro(ci):
+        for mname, fn in sorted(c.methods.items()):
+            fo = Folder(prog, c.mod, fn, c)
+            for call in [x for x in walk_no_nested(fn) if isinstance(x, ast.Call) and isinstance(x.func, ast.Attribute) and x.func.attr == "format"]:
+                try:
+                    t = fo.fold(call)
+                except Exception:
+                    t = None
+                if t is None:
+                    continue
+                parts = t.parts
+                for i, p_ in enumerate(parts):
+                    if isinstance(p_, str) or i == 0 or not isinstance(parts[i - 1], str):
+                        continue
+                    before = parts[i - 1]
+                    if not (before.endswith("ptr_") or before.endswith("ollector_")):
+                        continue
+                    e = inline_locals(fn, p_.expr)
+                    txt = unparse(e)
+                    if isinstance(e, ast.Name):
+                        # bound by unpacking the result of a naming helper: `a, b = self.get_class_name(cls)`
+                        for st in walk_no_nested(fn):
+                            if isinstance(st, ast.Assign) and isinstance(st.targets[0], (ast.Tuple, ast.List)) \
+                                    and any(isinstance(x, ast.Name) and x.id == e.id for x in st.targets[0].elts) \
+                                    and isinstance(st.value, ast.Call) and isinstance(st.value.func, ast.Attribute) and unparse(st.value.func.value) == "self":
+                                h = prog.find_method(ci, st.value.func.attr)
+                                if h is not None and "_format_class_name(" in unparse(h[1]):
+                                    txt = f"self.{st.value.func.attr}(...) -> _format_class_name(...)"
+                    if "_format_class_name(" in txt or "get_class_name(" in txt:
+                        fam = "declaration scope" if reads_parent else "helper"
+                    elif isinstance(e, ast.BinOp) and isinstance(e.op, ast.Add) and txt.endswith(".name"):
+                        fam = "wrapping scope"
+                    elif isinstance(e, ast.Name) and e.id in func_params(fn):
+                        fam = "parameter"
+                    else:
+                        fam = "other"
+                    sites.append((mname, call.lineno, fam, txt[:60]))
+    # get_class_name is how generate_preamble obtains the name: resolve locals bound by tuple unpacking from it
+    fams = {}
+    for mname, ln, fam, txt in sites:
+        fams.setdefault(fam, []).append(f"{mname}@{ln}")
+    if len(sites) < 6:
+        raise AnalysisError(f"{rep.prop}/{rid}: only {len(sites)} collector / pointer-property name sites found")
+    decl = fams.get("declaration scope", [])
+    wrapping = fams.get("wrapping scope", [])
+    by_method = sorted({s.split("@")[0] for s in decl})
+    for m_ in by_method or ["-"]:
+        rep.add(rid, f"class names:{m_}:collector / pointer-property names take the scope the class is wrapped in",
+                not (decl and wrapping) or m_ == "-",
+                f"{m_} spells the name through _format_class_name, which reads the scope from `<class>.parent` (the declaration's namespace), while "
+                f"{len(wrapping)} other site(s) ({', '.join(wrapping[:3])} ...) use the namespace the class is wrapped in: for "
+                f"`namespace a {{ template<T> class Box {{}}; }} namespace b {{ typedef a::Box<a::P> BoxP; }}` one side writes aBoxP, the other bBoxP",
+                f"{ci.mod.rel}:{next((int(s.split('@')[1]) for s in decl if s.startswith(m_ + '@')), 0)}")
+
+
+def rule_callee_spelling(ctx, rep: Report, rid="M10"):
+    """The C++ expression a routine calls is the *declared* entity: its original name, with the explicit template
+    arguments of the instantiation (`to_cpp()` of the instantiated callable).  Per kind of callable handled by
+    wrap_collector_function_return, the last component of the callee's spelling is classified: `x.to_cpp()` is the declared
+    spelling; `x.original.name` drops the template arguments (only right for a kind that cannot be a template);
+    `x.name` is the *instantiated* name for every kind whose instantiation renames it (instantiate_name) and names no
+    C++ entity then."""
+    ci, prog = mw(ctx)
+    fn = prog.method("MatlabWrapper", "wrap_collector_function_return")
+    mparam = func_params(fn)[1]
+    chain = [i for i in walk_no_nested(fn) if isinstance(i, ast.If) and isinstance(i.test, ast.Call) and unparse(i.test.func) == "isinstance"
+             and unparse(i.test.args[0]) == mparam]
+    if len(chain) < 3:
+        raise AnalysisError(f"wrap_collector_function_return: dispatch on the kind of `{mparam}` not found ({len(chain)} tests)")
+    all_classes = [c for mi in prog.modules.values() for c in mi.classes.values()]
+
+    def renamed_by_instantiation(k) -> List[str]:
+        out = []
+        for c in all_classes:
+            if c is k or prog.is_subclass(c, k):
+                init = c.methods.get("__init__")
+                if init is not None and any(isinstance(st, ast.Assign) and unparse(st.targets[0]) == "self.name" and "instantiate_name(" in unparse(st.value)
+                                            for st in ast.walk(init)):
+                    out.append(c.qual)
+        return out
+
+    def can_be_template(k) -> bool:
+        for c in all_classes:
+            if c is k or prog.is_subclass(c, k):
+                init = c.methods.get("__init__")
+                if init is not None and "instantiations" in func_params(init):
+                    return True
+        return False
+    n = 0
+    for i in chain:
+        kexpr = i.test.args[1]
+        k = prog.resolve_class(kexpr, ci.mod)
+        kname = unparse(kexpr).split(".")[-1]
+        pieces = [st.value for st in i.body if isinstance(st, (ast.Assign, ast.AugAssign))
+                  and unparse(st.targets[0] if isinstance(st, ast.Assign) else st.target) not in (mparam,)
+                  and "name" in unparse(st.targets[0] if isinstance(st, ast.Assign) else st.target)]
+        if not pieces or k is None:
+            continue
+        last = pieces[-1]
+        txt = unparse(last)
+        n += 1
+        if txt == f"{mparam}.to_cpp()":
+            ok, why = True, "declared spelling (original name + explicit template arguments)"
+        elif txt == f"{mparam}.original.name":
+            ok = not can_be_template(k)
+            why = (f"`{txt}`: the explicit template arguments of a templated {kname} are dropped; C++ must deduce them, which fails for a parameter "
+                   f"that does not occur in the argument list (`template<T={{int}}> static T make();` -> `Class::make()`)")
+        elif txt == f"{mparam}.name":
+            rn = renamed_by_instantiation(k)
+            ok = not rn
+            why = (f"`{txt}`: for {rn} this is the instantiated name (`TemplatedFunctionRot3`), not the declared function: the routine calls "
+                   f"`TemplatedFunctionRot3(t)` where C++ declares `TemplatedFunction<gtsam::Rot3>(t)`")
+        else:
+            ok, why = True, f"`{txt}` (not classified)"
+        rep.add(rid, f"callee spelling:{kname}", ok, why, f"{ci.mod.rel}:{last.lineno}", nontrivial=not ok or txt.endswith("to_cpp()"))
+    if n < 3:
+        raise AnalysisError(f"{rep.prop}/{rid}: only {n} kinds of callable classified")
